@@ -4,6 +4,7 @@ package main
 // PEG oracle admits, for one model.
 
 import (
+	"regexp"
 	"fmt"
 	"go/ast"
 	"go/types"
@@ -35,7 +36,19 @@ type templateVerdict struct {
 
 // project recomputes Missing/Extra under a projection of outcomes (each
 // property looks at its own component of the abstract state).
-func (tv *templateVerdict) project(proj func(outcome) string) (missing, extra []string) {
+func (tv *templateVerdict) project(proj0 func(outcome) string) (missing, extra []string) {
+	// a repetition that was entered but completed no iteration leaves nothing but
+	// its entry marker; whether the emitted code has a loop there at all depends on
+	// whether its body is syntactically dead, so such markers are dropped and the
+	// remaining repetitions numbered in order of appearance
+	proj := func(o outcome) string {
+		o.Hist = dropIdleLoops(o.Hist)
+		k := proj0(o)
+		if k == "" {
+			return ""
+		}
+		return renumberLoops(k)
+	}
 	g, w := map[string]bool{}, map[string]bool{}
 	for _, o := range tv.Got {
 		if k := proj(o); k != "" {
@@ -55,6 +68,32 @@ func (tv *templateVerdict) project(proj func(outcome) string) (missing, extra []
 	for k := range g {
 		if !w[k] {
 			extra = append(extra, k)
+		}
+	}
+	if len(missing) > 0 || len(extra) > 0 {
+		// the two sides may only split the possible runes at a position differently
+		// (A{a}(P) and A{z,OTHER}(P) against A{a,z,OTHER}(P)): compare rune by rune
+		ge, we := map[string]bool{}, map[string]bool{}
+		for k := range g {
+			for _, x := range expandRunes(k) {
+				ge[x] = true
+			}
+		}
+		for k := range w {
+			for _, x := range expandRunes(k) {
+				we[x] = true
+			}
+		}
+		missing, extra = nil, nil
+		for k := range we {
+			if !ge[k] {
+				missing = append(missing, k)
+			}
+		}
+		for k := range ge {
+			if !we[k] {
+				extra = append(extra, k)
+			}
 		}
 	}
 	sort.Strings(missing)
@@ -274,6 +313,27 @@ func (m *model) ruleFirst(name string) *NSet {
 		return nil
 	}
 	return s
+}
+
+var reLoopEntry = regexp.MustCompile(`^loop(?:#\d+)?\((\d+)\)from\(`)
+var reLoopDone = regexp.MustCompile(`^loop(?:#\d+)?\((\d+)\)\+$`)
+
+// dropIdleLoops removes the entry markers of repetitions that complete no iteration.
+func dropIdleLoops(h []string) []string {
+	done := map[string]bool{}
+	for _, e := range h {
+		if m := reLoopDone.FindStringSubmatch(e); m != nil {
+			done[m[1]] = true
+		}
+	}
+	var out []string
+	for _, e := range h {
+		if m := reLoopEntry.FindStringSubmatch(e); m != nil && !done[m[1]] {
+			continue
+		}
+		out = append(out, e)
+	}
+	return out
 }
 
 // projectMulti is project for projections that expand one outcome into several.
